@@ -2,6 +2,7 @@ package rules
 
 import (
 	"fmt"
+	"go/types"
 	"strings"
 
 	"golang.org/x/tools/go/ssa"
@@ -374,4 +375,124 @@ func r16capX(c *core.Ctx, R string) {
 		c.Check(r.ok, R, "tglib.GetUESecurityCapability:"+s, fn.Pos(), fmt.Sprintf("%s algorithm %d ⇒ bit %d", kind, n, 7-n), "%s algorithm %d must set exactly bit %d of its octet: %s", kind, n, 7-n, r.bad)
 	}
 	c.Check(okOther, R, "tglib.GetUESecurityCapability:other-algorithms", fn.Pos(), "no bit for an algorithm id without a capability bit", "an algorithm id above 3 must not set any capability bit")
+}
+
+// r16depEval: CreateUE interpreted up to NewRanUeContext; returns the names of the SUPI and
+// RAN-UE-NGAP-ID arguments in the vocabulary sprintf(<format>|args…), atoi(p0), len(p0), p1.
+func r16depEval(c *core.Ctx) (supi, ran string, ok bool) {
+	fn := mustFunc(c, pStg, "CreateUE")
+	ex := core.NewExec()
+	var got []core.AEvent
+	ex.OnCall = func(ev *core.AEvent, m *core.AMem) (core.AVal, bool) {
+		switch ev.Callee {
+		case "strconv.Atoi":
+			if len(ev.Args) == 1 {
+				return core.AVal{K: core.ATuple, Elems: []core.AVal{core.ArgNamed("atoi("+core.ArgName(ev.Args[0])+")", ev.Site.Type().(interface{ At(int) *types.Var }).At(0).Type()), core.NilArg()}}, true
+			}
+		case "fmt.Sprintf":
+			if len(ev.Args) == 2 && ev.Args[0].K == core.AStr && ev.Args[0].IsConst {
+				return core.AVal{K: core.AStr, Path: fmt.Sprintf("sprintf(%q|%s)", ev.Args[0].Const, strings.Join(sliceContent(m, ev.Args[1]), ",")), Lo: 0, Len: -1}, true
+			}
+		case pTglib + ".NewRanUeContext":
+			got = append(got, *ev)
+			return core.AVal{K: core.APtr, Path: "ue", NonNil: true}, true
+		}
+		return core.AVal{}, false
+	}
+	outs, err := ex.Run(fn, core.DefaultArgs(fn), nil)
+	if err != nil || len(outs) == 0 || len(got) == 0 {
+		return "", "", false
+	}
+	// every path must build the same identity
+	supi, ran = core.ArgName(got[0].Args[0]), core.ArgName(got[0].Args[1])
+	for _, ev := range got[1:] {
+		if core.ArgName(ev.Args[0]) != supi || core.ArgName(ev.Args[1]) != ran {
+			return "", "", false
+		}
+	}
+	return supi, ran, true
+}
+
+// r18loadX: GetConfiguration interpreted with os.ReadFile and yaml.Unmarshal summarised: the bytes
+// handed to the parser are those of config.yaml, the destination is the receiver, and after the
+// parser nothing writes the configuration (helpers are entered, so a load()/readFile() split is
+// the same thing).
+func r18loadX(c *core.Ctx, R string) {
+	fn := mustFunc(c, pStg, "Conf.GetConfiguration")
+	ex := core.NewExec()
+	ex.OnCall = func(ev *core.AEvent, m *core.AMem) (core.AVal, bool) {
+		switch ev.Callee {
+		case "os.ReadFile":
+			if len(ev.Args) == 1 {
+				return core.AVal{K: core.ATuple, Elems: []core.AVal{{K: core.ASlice, Path: "file(" + core.ArgName(ev.Args[0]) + ")", Lo: 0, Len: -1}, {K: core.AUnknown, Path: "readerr"}}}, true
+			}
+		case "gopkg.in/yaml.v2.Unmarshal":
+			if len(ev.Args) == 2 && ev.Args[1].K == core.APtr {
+				m.Havoc(ev.Args[1].Path)
+			}
+			return core.AVal{K: core.AUnknown, Path: "yamlerr"}, true
+		}
+		return core.AVal{}, false
+	}
+	// anything that is handed (part of) the configuration's address after it was parsed can rewrite it
+	handed := ""
+	parsed := false
+	ex.Observe = func(ev *core.AEvent) {
+		if ev.Callee == "gopkg.in/yaml.v2.Unmarshal" {
+			parsed = true
+			return
+		}
+		if !parsed || core.RepoFunc(ev.Fn) {
+			return
+		}
+		for _, a := range ev.Args {
+			if a.K == core.APtr && (a.Path == "p0" || strings.HasPrefix(a.Path, "p0.")) {
+				handed = shortName(ev.Callee)
+			}
+		}
+	}
+	args := core.DefaultArgs(fn)
+	args[0] = core.NonNilArg(args[0])
+	outs, err := ex.Run(fn, args, nil)
+	if handed != "" {
+		c.Fail(R, "stgutg.GetConfiguration:no-post-processing", fn.Pos(), "the configuration is modified after parsing (configuration handed to %s): values no longer reach the procedures unchanged", handed)
+		return
+	}
+	if err != nil || len(outs) == 0 {
+		c.SoftUndecided("%s: GetConfiguration could not be evaluated (%v)", R, err)
+		return
+	}
+	okUm, okPost := true, true
+	why, post := "", ""
+	for _, o := range outs {
+		if o.Panicked {
+			continue
+		}
+		var um *core.AEvent
+		for i := range o.Trace {
+			if o.Trace[i].Callee == "gopkg.in/yaml.v2.Unmarshal" {
+				if um != nil {
+					okUm, why = false, "the configuration is parsed twice"
+				}
+				um = &o.Trace[i]
+			}
+		}
+		if um == nil {
+			okUm, why = false, "a path returns without parsing the file"
+			continue
+		}
+		a := um.Args
+		if !(len(a) == 2 && a[0].K == core.ASlice && a[0].Path == `file("config.yaml")` && a[0].Lo == 0 && um.Mem.Untouched(a[0].Path) && a[1].K == core.APtr && a[1].Path == "p0") {
+			okUm, why = false, fmt.Sprintf("yaml.Unmarshal receives (%s, %s)", core.ArgName(a[0]), core.ArgName(a[1]))
+		}
+		// after the parser: no cell of the receiver written, receiver not handed to anything that may write
+		if cells := o.Mem.Cells("p0."); len(cells) > 0 {
+			okPost, post = false, "store to "+cells[0]
+		}
+		if o.Mem.Version("p0") > um.Mem.Version("p0")+1 {
+			okPost, post = false, "the configuration is handed to a callee that may rewrite it"
+		}
+	}
+	c.Check(okUm, R, "stgutg.GetConfiguration:unmarshal", fn.Pos(), "yaml.Unmarshal(ReadFile(\"config.yaml\"), c)", "GetConfiguration must unmarshal the bytes of config.yaml into its receiver (%s)", why)
+	c.Check(okPost, R, "stgutg.GetConfiguration:no-post-processing", fn.Pos(), "only yaml.Unmarshal writes the configuration", "the configuration is modified after parsing (%s): values no longer reach the procedures unchanged", post)
 }
